@@ -440,7 +440,7 @@ func startWatchdog() {
 			var lastSeq uint64
 			var since time.Time
 			var cpu0 time.Duration
-			tick := 0
+			tick, tick0 := 0, 0
 			for {
 				time.Sleep(250 * time.Millisecond)
 				tick++
@@ -450,12 +450,17 @@ func startWatchdog() {
 				}
 				seq := callSeq.Load()
 				if seq != lastSeq {
-					lastSeq, since, cpu0 = seq, time.Now(), cpuTime()
+					lastSeq, since, cpu0, tick0 = seq, time.Now(), cpuTime(), tick
 					continue
 				}
 				runaway := ""
 				if time.Since(since) >= hangWall && cpuTime()-cpu0 >= hangCPU {
 					runaway = fmt.Sprintf("call did not return: %.1fs wall, %.1fs cpu on one case", time.Since(since).Seconds(), (cpuTime() - cpu0).Seconds())
+				} else if wall := time.Since(since); wall >= 3*hangWall && cpuTime()-cpu0 < time.Second &&
+					float64(tick-tick0) >= 0.8*float64(wall/(250*time.Millisecond)) {
+					// this goroutine has been scheduled all along (the process is not starved), yet the
+					// call burns no CPU and does not return: it is blocked (a lock, a channel)
+					runaway = fmt.Sprintf("call is blocked: %.1fs wall, %.2fs cpu on one case", wall.Seconds(), (cpuTime() - cpu0).Seconds())
 				} else if tick%4 == 0 && time.Since(since) >= time.Second {
 					var ms runtime.MemStats
 					runtime.ReadMemStats(&ms)
